@@ -343,6 +343,10 @@ func (e *Engine) verifyCase(fn *ssa.Function, con *Contract, choice []splitChoic
 	for _, r := range con.Requires {
 		vc.Assume(pre.evalBool(r.E))
 	}
+	for _, r := range con.Assumes {
+		vc.Assume(pre.evalBool(r.E))
+		e.Note("unchecked entry assumption of " + fn.String() + ": " + r.Text)
+	}
 	vc.PreN = len(vc.Assumes)
 	if !con.SafetyOnly || len(con.Requires) > 0 {
 		o := vc.Oblige("pre-sat", "pre-sat", True, False, x.pos(fn.Pos()), "precondition is satisfiable (vacuity guard; expected: sat)")
@@ -362,73 +366,95 @@ func (e *Engine) verifyCase(fn *ssa.Function, con *Contract, choice []splitChoic
 	if len(exits) == 0 {
 		return vc
 	}
-	edges := make([]*vedge, len(exits))
-	var cs []*Term
-	for i, ex := range exits {
-		edges[i] = &vedge{cond: ex.cond, heap: ex.heap}
-		cs = append(cs, ex.cond)
+	type exitGroup struct {
+		reach   *Term
+		heap    map[string]*Term
+		results []*Val
+		suffix  string
 	}
-	reach := Or(cs...)
-	heap := x.mergeHeaps(edges)
-	var results []*Val
-	for r := 0; r < len(exits[0].results); r++ {
-		vals := make([]*Val, len(exits))
+	var groups []*exitGroup
+	var allCs []*Term
+	for _, ex := range exits {
+		allCs = append(allCs, ex.cond)
+	}
+	if con.Opts["split-exits"] != "" || con.Opts["split-exits"] == "" && false {
 		for i, ex := range exits {
-			vals[i] = ex.results[r]
+			groups = append(groups, &exitGroup{reach: ex.cond, heap: ex.heap, results: ex.results, suffix: fmt.Sprintf(".x%d", i)})
 		}
-		if len(exits) == 1 {
-			results = append(results, vals[0])
-		} else {
-			results = append(results, x.mergeVals(edges, vals))
+	} else {
+		edges := make([]*vedge, len(exits))
+		for i, ex := range exits {
+			edges[i] = &vedge{cond: ex.cond, heap: ex.heap}
 		}
-	}
-	post := fr.specEnvEntry(heap)
-	post.old = pre
-	rn := resultNames(con, fn.Signature)
-	base := post.names
-	post.names = func(s string) *SV {
-		for i, n := range rn {
-			if n == s && i < len(results) {
-				return &SV{T: results[i].T, Ty: fn.Signature.Results().At(i).Type()}
+		g := &exitGroup{reach: Or(allCs...), heap: x.mergeHeaps(edges)}
+		for r := 0; r < len(exits[0].results); r++ {
+			vals := make([]*Val, len(exits))
+			for i, ex := range exits {
+				vals[i] = ex.results[r]
+			}
+			if len(exits) == 1 {
+				g.results = append(g.results, vals[0])
+			} else {
+				g.results = append(g.results, x.mergeVals(edges, vals))
 			}
 		}
-		if s == "result" && len(results) == 1 {
-			return &SV{T: results[0].T, Ty: fn.Signature.Results().At(0).Type()}
-		}
-		return base(s)
+		groups = []*exitGroup{g}
 	}
 	{
 		// vacuity guard: a normal exit must be reachable under all hypotheses collected on the way
-		o := vc.Oblige("vacuity", "vacuity.exit", True, Not(reach), x.pos(fn.Pos()), "some normal exit is reachable under the accumulated hypotheses (expected: sat)")
+		o := vc.Oblige("vacuity", "vacuity.exit", True, Not(Or(allCs...)), x.pos(fn.Pos()), "some normal exit is reachable under the accumulated hypotheses (expected: sat)")
 		o.Result, o.Solver, o.Folded = "", "", false
 	}
-	for i, d := range con.Defines {
-		// ghost definition of an abstract view on the freshly allocated result: a conservative extension,
-		// admitted only if the result is provably fresh
-		if len(results) == 0 || results[0].T == nil {
-			stale("defines needs a result")
+	rn := resultNames(con, fn.Signature)
+	short := func(ic *Contract) string {
+		s := ic.Key
+		if k := strings.LastIndex(s, "/"); k >= 0 {
+			s = s[k+1:]
 		}
-		vc.Oblige("defines-fresh", fmt.Sprintf("defines-fresh.%d", i), reach, Or(Eq(results[0].T, IntLit(0)), Gt(results[0].T, x.top0)), x.pos(fn.Pos()), "the object whose abstract view is defined is freshly allocated")
-		vc.Assume(Implies(reach, post.evalBool(d.E)))
-		e.Note("ghost definition admitted for the fresh result of " + fn.String() + ": " + d.Text)
+		return s
 	}
-	for i, en := range con.Ensures {
-		t := post.evalBool(en.E)
-		vc.Oblige("post", fmt.Sprintf("post.%d", i), reach, t, x.pos(fn.Pos()), en.Text)
-	}
-	for _, ic := range ifaceCons {
-		ie := ifaceEnv(ic, post, results)
-		oe := ifaceEnv(ic, pre, nil)
-		ie.old = oe
-		short := ic.Key
-		if k := strings.LastIndex(short, "/"); k >= 0 {
-			short = short[k+1:]
+	nAssumeBase := len(vc.Assumes)
+	for _, g := range groups {
+		results, reach := g.results, g.reach
+		post := fr.specEnvEntry(g.heap)
+		post.old = pre
+		base := post.names
+		post.names = func(s string) *SV {
+			for i, n := range rn {
+				if n == s && i < len(results) {
+					return &SV{T: results[i].T, Ty: fn.Signature.Results().At(i).Type()}
+				}
+			}
+			if s == "result" && len(results) == 1 {
+				return &SV{T: results[0].T, Ty: fn.Signature.Results().At(0).Type()}
+			}
+			return base(s)
 		}
-		for i, en := range ic.Ensures {
-			t := ie.evalBool(en.E)
-			vc.Oblige("refines", fmt.Sprintf("refines.%s.%d", short, i), reach, t, x.pos(fn.Pos()), en.Text)
+		for i, d := range con.Defines {
+			// ghost definition of an abstract view on the freshly allocated result: a conservative extension,
+			// admitted only if the result is provably fresh
+			if len(results) == 0 || results[0].T == nil {
+				stale("defines needs a result")
+			}
+			vc.Oblige("defines-fresh", fmt.Sprintf("defines-fresh.%d%s", i, g.suffix), reach, Or(Eq(results[0].T, IntLit(0)), Gt(results[0].T, x.top0)), x.pos(fn.Pos()), "the object whose abstract view is defined is freshly allocated")
+			vc.Assume(Implies(reach, post.evalBool(d.E)))
+			e.Note("ghost definition admitted for the fresh result of " + fn.String() + ": " + d.Text)
+		}
+		for i, en := range con.Ensures {
+			t := post.evalBool(en.E)
+			vc.Oblige("post", fmt.Sprintf("post.%d%s", i, g.suffix), reach, t, x.pos(fn.Pos()), en.Text)
+		}
+		for _, ic := range ifaceCons {
+			ie := ifaceEnv(ic, post, results)
+			oe := ifaceEnv(ic, pre, nil)
+			ie.old = oe
+			for i, en := range ic.Ensures {
+				t := ie.evalBool(en.E)
+				vc.Oblige("refines", fmt.Sprintf("refines.%s.%d%s", short(ic), i, g.suffix), reach, t, x.pos(fn.Pos()), en.Text)
+			}
 		}
 	}
+	_ = nAssumeBase
 	return vc
 }
 
